@@ -53,8 +53,11 @@ CONTRACTS = {
         axioms=['sq(vector_in, 0) == 0',
                 'forall(k, 0, len(vector_in), sq(vector_in, k + 1) == sq(vector_in, k) + vector_in[k] * vector_in[k])'],
         # Euclidean norm: non-negative and its square is the sum of squares (math.sqrt by contract, A4)
-        ensures=['result >= 0', 'result * result == sq(vector_in, len(vector_in))'],
-        loops={0: dict(inv=['sq_sum == sq(vector_in, _i0)', 'sq_sum >= 0'])},
+        # ... and it dominates every component (so it is zero only for the zero vector)
+        ensures=['result >= 0', 'result * result == sq(vector_in, len(vector_in))',
+                 'forall(q, 0, len(vector_in), vector_in[q] * vector_in[q] <= result * result)'],
+        loops={0: dict(inv=['sq_sum == sq(vector_in, _i0)', 'sq_sum >= 0',
+                            'forall(q, 0, _i0, vector_in[q] * vector_in[q] <= sq_sum)'])},
     ),
     'linalg.matrix_transpose': dict(
         props=['C16'],
